@@ -128,17 +128,21 @@ theorem submit_quiet_or_raised (s s' : St β) (maxBytes maxN : Nat) :
         simp only [step] at h2
         split at h2
         · cases h2
-        · simp [hc] at h2
+        · simp [finish, hc] at h2
   · intro h
-    unfold step at h
-    cases hb : bunchesOf sz s maxBytes maxN with
-    | none => simp only [hb, Prod.mk.injEq] at h; exact h.1.symm
-    | some bs =>
-      simp only [hb, Prod.mk.injEq, Option.some.injEq] at h
-      obtain ⟨_, h⟩ := h
-      split at h
-      · cases h
-      · split at h <;> cases h
+    exact (step_unsuccessful_keeps sz s _ s' .raised (Or.inl ⟨_, _, rfl⟩) h (Or.inr rfl)) |> fun ⟨a, b, c, d⟩ => by
+      have hc : s'.created = s.created := by
+        simp only [step] at h
+        cases hb : bunchesOf sz s maxBytes maxN with
+        | none => rw [hb] at h; simp only [Prod.mk.injEq] at h; rw [← h.1]
+        | some bs =>
+          rw [hb] at h
+          simp only [finish, Prod.mk.injEq, Option.some.injEq] at h
+          obtain ⟨_, h⟩ := h
+          split at h
+          · cases h
+          · split at h <;> cases h
+      cases s; cases s'; simp_all
 
 /-- **Every spec is posted exactly once**: for any script of creations and submits on a fresh `Batch`, the job groups
 posted by all its submits, followed by those still pending, are exactly the job groups created, in creation order —
@@ -158,12 +162,42 @@ theorem announced_counts_match (ops : List (Op β)) (w : Wire β) (h : Result.se
     w.announcedGroups = w.groups.length ∧ w.announcedJobs = w.jobs.length :=
   run_announced sz ops St.init inv_init w h
 
+/-- A submit whose k-th request is answered with an error (413, 500, connection reset) leaves every pending buffer as it
+was — the reset block is not reached and nothing else is remembered from the attempt. -/
+theorem failed_submit_keeps_pending (s s' : St β) (maxBytes maxN k : Nat)
+    (h : step sz s (.submitFailing maxBytes maxN k) = (s', some .failed)) :
+    s'.groupSpecs = s.groupSpecs ∧ s'.jobSpecs = s.jobSpecs ∧ s'.nGroups = s.nGroups ∧ s'.nJobs = s.nJobs :=
+  step_unsuccessful_keeps sz s _ s' .failed (Or.inr ⟨_, _, _, rfl⟩) h (Or.inl rfl)
+
+/-- **A retry posts exactly the pending specs under ITS OWN limits**: after any number of unsuccessful attempts (request
+errors at any position, assertions; any limits), a submit that goes through puts on the wire exactly the specs that
+were pending before the first attempt — all job groups in order, then all jobs in order — in bunches that respect the
+limits given to this call, and then resets every buffer. -/
+theorem retry_posts_exactly_pending (s : St β) (attempts : List (Op β))
+    (hatt : ∀ op ∈ attempts, (∃ b n, op = .submit b n) ∨ (∃ b n k, op = .submitFailing b n k))
+    (hfail : ∀ r ∈ (run sz s attempts).2, r = .failed ∨ r = .raised)
+    (maxBytes maxN : Nat) (s' : St β) (w : Wire β)
+    (h : step sz (run sz s attempts).1 (.submit maxBytes maxN) = (s', some (.sent w))) :
+    w.groups = s.groupSpecs ∧ w.jobs = s.jobSpecs ∧
+    (∀ b ∈ w.bunches, b ≠ [] ∧ bytes (fun p => sz p.2) b < maxBytes ∧ b.length ≤ maxN) ∧
+    s'.groupSpecs = [] ∧ s'.jobSpecs = [] := by
+  obtain ⟨k1, k2, _, _⟩ := run_unsuccessful_keeps sz attempts s hatt hfail
+  obtain ⟨_, hg, hj, hl, e1, e2, _⟩ := submit_posts_exactly_pending sz _ s' maxBytes maxN w h
+  exact ⟨hg.trans k1, hj.trans k2, hl, e1, e2⟩
+
 end Caller
 
 open HailVerif.Submit in
 -- two submits: the second one posts only what was created after the first (uids 4 and 5), the first one groups before jobs
 example : (run (fun _ : Nat => 10) St.init [.createJob 1, .createGroup 2, .createGroup 3, .submit 1000 10, .createJob 4, .createGroup 5,
     .submit 1000 10]).2.map (fun r => (Submit.Result.groups r, Submit.Result.jobs r)) = [([2, 3], [1]), ([5], [4])] := by decide
+open HailVerif.Submit in
+-- 10 jobs, limits (10 specs, 10^6 bytes): the 2nd request fails; an 11th job is added; the retry with limit 3 posts all 11 in
+-- bunches of at most 3 (nothing of the first attempt's bunching survives)
+example : ((run (fun _ : Nat => 100) St.init ((List.range 10).map .createJob ++ [.submitFailing 1000000 4 2, .createJob 10,
+    .submit 1000000 3])).2.map fun r => match r with
+      | .sent w => w.bunches.map (·.map (·.2))
+      | _ => []) = [[], [[0, 1, 2], [3, 4, 5], [6, 7, 8], [9, 10]]] := by decide
 open HailVerif.Submit in
 -- an update with nothing pending sends nothing; a spec of 1000 bytes or more stops the submit and stays pending
 example : (run (fun n : Nat => n) St.init [.submit 1000 10, .submit 1000 10, .createJob 1000, .submit 1000 10, .submit 1001 10]).2.map
